@@ -206,8 +206,9 @@ def main():
         "wall_s": round(time.time() - t0, 2),
         "violations": len(fresh),
     }
-    os.makedirs(os.path.join(VERIF_DIR, "evidence"), exist_ok=True)
-    evpath = os.path.join(VERIF_DIR, "evidence", "%s.json" % mod.ID)
+    evdir = os.environ.get("VERIF_EVIDENCE_DIR") or os.path.join(VERIF_DIR, "evidence")
+    os.makedirs(evdir, exist_ok=True)
+    evpath = os.path.join(evdir, "%s.json" % mod.ID)
     with open(evpath, "w") as f:
         json.dump(jsonable(evidence), f, indent=1, sort_keys=True)
     errs = validate_evidence(json.load(open(evpath)))
@@ -221,7 +222,7 @@ def main():
         if known_hit.get(k["mech"]):
             print("KNOWN-FINDING: property=%s %s [%s; %d witnesses this run]" % (mod.ID, k["what"], k["mech"], known_hit[k["mech"]]))
     if fresh:
-        rdir = os.path.join(VERIF_DIR, "replays", mod.ID)
+        rdir = os.path.join(os.environ.get("VERIF_REPLAY_DIR") or os.path.join(VERIF_DIR, "replays"), mod.ID)
         os.makedirs(rdir, exist_ok=True)
         seen = set()
         for v in fresh:
@@ -237,11 +238,25 @@ def main():
             print("  mechanism=%s witness=%s" % (v["mech"], json.dumps(v["detail"])[:700]))
         sys.exit(1)
     if inconclusive:
-        for r in inconclusive[:6]:
-            print("INCONCLUSIVE property=%s reason=%s" % (mod.ID, r[:1500]))
+        shown = set()
+        for r in inconclusive:
+            k = r[-160:]
+            if k in shown or len(shown) >= 4:
+                continue
+            shown.add(k)
+            print("INCONCLUSIVE property=%s reason=%s" % (mod.ID, r[:1500].replace("\\n", "\n")))
         sys.exit(2)
     sys.exit(0)
 
 
 if __name__ == "__main__":
-    main()
+    try:
+        main()
+    except SystemExit:
+        raise
+    except BaseException as e:  # noqa: BLE001  an internal error is never a verdict about the property
+        import traceback
+
+        traceback.print_exc()
+        print("INCONCLUSIVE property=%s reason=internal error in the harness: %r" % (sys.argv[1] if len(sys.argv) > 1 else "?", e))
+        sys.exit(2)
